@@ -19,7 +19,8 @@ from classy_blocks.base.exceptions import UndefinedGradingsError
 RULE = (
     "One cell per shape class. A case = parameters in the class's canonical frame (radii 0.1..10, lengths, sweep "
     "angles 10..170 deg, 3..12 segments, 3..6 branches) + a rigid placement (general rotation axis and angle, offset "
-    "up to 10; 1 in 6 axis-aligned) + a set of chops (counts 1..7, or start sizes). The defining points are mapped "
+    "up to 10; 1 in 6 axis-aligned) + a set of chops (counts 1..7, or start sizes) + in half of the cases a second "
+    "rigid motion applied to the built entity with the library's rotate / translate. The defining points are mapped "
     "to the world by the harness (Rodrigues) and handed to the constructor, so the expected circles, block and "
     "vertex counts are known independently. Chains: a start shape and up to three chain / expand / contract / fill / "
     "Hemisphere.chain steps drawn from a symbolic model of free ends. Non-trivial: placement not axis-aligned (chains: "
@@ -40,6 +41,10 @@ ASSUMPTIONS = [
     "size-chop-conflict)",
     "Grid sketches, single operations and Shell have no documented shape-level chop set: their write is attempted with "
     "harness-chosen chops and a failure is only labelled",
+    "moving a built entity with rotate(angle, axis, origin) / translate is a valid way to reach a placement; the expected "
+    "circles, axes of revolution and interfaces are mapped with the same rigid map built from Rodrigues' formula",
+    "side edges of RevolvedShape / RevolvedStack / Revolve are outer arcs too: a vertex and its image under the "
+    "revolution must be joined by an arc about the axis of revolution (same tolerance as the circles)",
     "chained shapes: the interface is the set of source vertices lying on the interface plane / cylinder computed by "
     "the harness from the chain parameters",
 ]
@@ -50,7 +55,8 @@ ASSUMPTIONS = [
 
 
 def base_facts(case, spec: Spec) -> Dict[str, Any]:
-    return {"shape": spec.name, "aligned": bool(case["place"].get("aligned")), "chop_mode": case["chops"]["mode"]}
+    return {"shape": spec.name, "aligned": bool(case["place"].get("aligned")), "chop_mode": case["chops"]["mode"],
+            "moved": case.get("post") is not None}
 
 
 def run_spec(case, ctx: Ctx, build) -> None:
@@ -60,6 +66,16 @@ def run_spec(case, ctx: Ctx, build) -> None:
         raise Violation("construction-failed", f"valid parameters rejected: {type(ex).__name__}: {str(ex)[:200]}",
                         cell_case=case.get("cls") or case.get("kind")) from None
     facts = base_facts(case, spec)
+    post = case.get("post")
+    if post is not None:
+        # the built entity is moved with the library's own rotate / translate; the ground truth follows by Rodrigues
+        try:
+            for e in spec.entities:
+                xs.move_entity(e, post)
+        except Exception as ex:  # noqa: BLE001
+            raise Violation("transform-failed", f"rotate/translate of the built entity raised {type(ex).__name__}: "
+                            f"{str(ex)[:200]}", **facts) from None
+        spec.transform(xs.post_matrix(post))
     if spec.chop is not None:
         try:
             spec.chop(case["chops"])
@@ -99,21 +115,25 @@ def run_spec(case, ctx: Ctx, build) -> None:
         xs.check_counts(len(dec.hexes), len(dec.pos), spec.n_blocks, spec.n_vertices, facts)
         xs.check_jacobians(dec.pos, dec.hexes, facts)
         arcs = xs.check_circles(dec, spec.circles, facts)
+        side = xs.check_revolve_arcs(dec, spec.revolves, spec.size, facts)
         xs.check_shared_edge_counts(dec, facts)
         ctx.label("written", f"arcs-checked={'0' if arcs == 0 else '>0'}")
+        if spec.revolves:
+            ctx.label("side-arcs-checked" if side else "side-arcs-none", "revolved+moved" if post is not None else "revolved")
         extra = spec.extra.get("file_check")
         if extra is not None:
-            extra(dec, facts)
+            extra(dec, facts, spec)
     ctx.nt(xs.is_general(case["place"]))
     ctx.label("general" if xs.is_general(case["place"]) else "aligned", "chops:" + case["chops"]["mode"])
+    ctx.label("moved-after-construction" if post is not None else "as-constructed")
     ctx.label("minJ<0.03" if worst < 0.03 else "minJ<0.1" if worst < 0.1 else "minJ>=0.1")
     for lb in spec.extra.get("labels", []):
         ctx.label(lb)
 
 
 def with_common(strategy):
-    return st.tuples(strategy, xs.placements(), xs.chop_sets()).map(
-        lambda t: {**t[0], "place": t[1], "chops": t[2]}
+    return st.tuples(strategy, xs.placements(), xs.chop_sets(), xs.post_transforms()).map(
+        lambda t: {**t[0], "place": t[1], "chops": t[2], "post": t[3]}
     )
 
 
@@ -124,9 +144,8 @@ def with_common(strategy):
 def build_round(case) -> Spec:
     spec = xs.build_round(case, case["place"])
     if case["cls"] == "Hemisphere":
-        c, r = spec.extra["sphere"]
-
-        def sphere_check(dec, facts, c=c, r=r):
+        def sphere_check(dec, facts, spec):
+            c, r = spec.extra["sphere"]
             tol = 1e-6 * r + 5e-8
             outer = [i for i, p in enumerate(dec.pos) if abs(np.linalg.norm(p - c) - r) <= tol]
             if len(outer) != 17:
@@ -206,10 +225,10 @@ def build_op(case) -> Spec:
         op = cb.Box(a, b)
         xs.place_entity(op, place)
         lo, hi = np.minimum(a, b), np.maximum(a, b)
-        corners = [W(M, [x, y, z]) for z in (lo[2], hi[2]) for y in (lo[1], hi[1]) for x in (lo[0], hi[0])]
+        s.extra["corners"] = [W(M, [x, y, z]) for z in (lo[2], hi[2]) for y in (lo[1], hi[1]) for x in (lo[0], hi[0])]
 
-        def corners_check(dec, facts, corners=corners):
-            for c in corners:
+        def corners_check(dec, facts, spec):
+            for c in spec.extra["corners"]:
                 if np.min(np.linalg.norm(dec.pos - c, axis=1)) > 1e-7 * (1 + np.linalg.norm(c)):
                     raise Violation("box-corner-missing", f"no vertex at the box corner {c.tolist()}", **facts)
 
@@ -388,12 +407,8 @@ def chain_cases(draw, start_kinds, witness: bool = False):
                         options += [("fill", i, "inner")] * 2
             if sh["kind"] in ("solid", "ring") and sh["straight"] and "outer" in sh["free"]:
                 options += [("expand", i, "outer")] * 2
-        # Elbow.chain(start_face=True) is a confirmed finding (known/C11.json): it has its own witness cell and is
-        # excluded here by construction so that it cannot hide anything else
-        if witness:
+        if witness:  # regression witness of the (fixed) Elbow.chain(start_face=True) defect
             options = [o for o in options if o[0] == "elb" and o[2] == "start"]
-        else:
-            options = [o for o in options if not (o[0] == "elb" and o[2] == "start")]
         if not options:
             break
         op, src, where = draw(st.sampled_from(options))
@@ -536,6 +551,17 @@ def check_chain(case, ctx: Ctx) -> None:
         shapes, interfaces = build_chain(case)
     except Exception as ex:  # noqa: BLE001
         raise Violation("construction-failed", f"valid chain rejected: {type(ex).__name__}: {str(ex)[:200]}", **facts) from None
+    post = case.get("post")
+    if post is not None:
+        # every shape of the finished chain is moved by the same rigid motion; interfaces follow by Rodrigues
+        P = xs.post_matrix(post)
+        try:
+            for sh in shapes:
+                xs.move_entity(sh.lib, post)
+        except Exception as ex:  # noqa: BLE001
+            raise Violation("transform-failed", f"{type(ex).__name__}: {str(ex)[:200]}", **facts) from None
+        for itf in interfaces:
+            itf["c"], itf["n"] = rm.apply(P, itf["c"]), rm.apply_dir(P, itf["n"])
     mesh = cb.Mesh()
     for sh in shapes:
         mesh.add(sh.lib)
@@ -596,13 +622,15 @@ def check_chain(case, ctx: Ctx) -> None:
             )
     general = xs.is_general(case["place"])
     ctx.nt(general and len(shapes) >= 2)
-    ctx.label(f"shapes={len(shapes)}", "general" if general else "aligned")
+    ctx.label(f"shapes={len(shapes)}", "general" if general else "aligned",
+              "moved-after-construction" if post is not None else "as-constructed")
     for s in case["steps"]:
         ctx.label("step:" + s["op"] + ("@start" if s["where"] == "start" else ""))
 
 
 def chain_strategy(start_kinds, witness=False):
-    return st.tuples(chain_cases(start_kinds, witness), xs.placements()).map(lambda t: {**t[0], "place": t[1]})
+    return st.tuples(chain_cases(start_kinds, witness), xs.placements(), xs.post_transforms()).map(
+        lambda t: {**t[0], "place": t[1], "post": t[2]})
 
 
 # --------------------------------------------------------------------------------------------------
@@ -641,4 +669,4 @@ CELLS.append(Cell("C11/chain/solid", chain_strategy(["Cylinder", "Frustum", "Elb
 CELLS.append(Cell("C11/chain/ring", chain_strategy(["ExtrudedRing"]), check_chain, 30, 1000,
                   "ExtrudedRing followed by <= 3 chain / expand / contract / fill steps: as above with 2 n interface vertices"))
 CELLS.append(Cell("C11/chain/witness-elbow-start", chain_strategy(["Cylinder", "Frustum", "Elbow"], witness=True),
-                  check_chain, 6, 100, "Elbow.chain(start_face=True) continuing away from the source"))
+                  check_chain, 6, 100, "Elbow.chain(start_face=True) continuing away from the source (regression witness)"))
